@@ -185,7 +185,10 @@ def execute(script):
                 old_snap = fs.snapshot()
                 old_t = _parse(old_snap['wallet.json']) if 'wallet.json' in old_snap else None
                 new_t = _wallet_tuple(wallet)
-                # dry run to count the durable boundaries of this save
+                # dry run to count the durable boundaries of this save (crash runs start from a copy of the wallet as it
+                # is now, so a save that keeps bookkeeping on the wallet object behaves the same in every re-execution)
+                import copy
+                wallet_before = copy.deepcopy(wallet)
                 fs.crash_at = None
                 fs.reset_boundaries()
                 save_wallet(wallet)
@@ -209,7 +212,7 @@ def execute(script):
                     fs.crash_at = pt
                     fs.reset_boundaries()
                     try:
-                        save_wallet(wallet)
+                        save_wallet(copy.deepcopy(wallet_before))
                         raise RuntimeError('harness: crash point %r not reached' % (pt,))
                     except Crash:
                         pass
